@@ -73,30 +73,39 @@ Print Assumptions C33_scanner_sound.
    IgnoreDeletionMarkFilter, DeduplicateFilter (the C31 model) and
    GatherNoCompactionMarkFilter with their marker reads and error propagation.
    [f : rid -> bool] says which reads fail.  [performed] are the reads the sync can
-   issue under f.  For EVERY bucket, EVERY fault set and EVERY performed read that
-   fails — listing, an Exists probe, a meta.json, a deletion mark, a no-compact
-   mark — the iteration (cleaner deletions, garbage-collection marks, any group
-   compaction work) is empty. *)
-Theorem C33_no_writes_on_failed_sync_full : forall conc cleaner f b r (work : sview -> list cop),
-  performed conc f b r = true -> f r = true -> iteration2 conc cleaner f b work = [].
+   issue under f.  A Get can fail when it is opened (RMeta/RDel/RNoc) or in the middle of
+   its body after a reader was returned (RMetaBody/RDelBody/RNocBody).  Read errors are
+   classified (classify_meta / classify_marker): not found => partial block / no marker,
+   content read completely but not JSON => corrupted partial block / marker ignored,
+   ANY OTHER error (open failure, body read failure, unexpected version) => incomplete
+   view / filter error.  For EVERY bucket, EVERY fault set and EVERY performed read that
+   fails — listing, an Exists probe, a meta.json, a deletion mark, a no-compact mark, at
+   the open or in the body — the iteration (cleaner deletions, garbage-collection marks,
+   any group compaction work, removal of old partial uploads) is empty. *)
+Theorem C33_no_writes_on_failed_sync_full : forall conc cleaner old f b r (work : sview -> list cop),
+  performed conc f b r = true -> f r = true -> iteration2 conc cleaner old f b work = [].
 Proof. exact iteration2_no_writes. Qed.
 Print Assumptions C33_no_writes_on_failed_sync_full.
 
 (* Every single fault position: failing exactly one of the reads a fault-free sync
    performs (in whatever order they are issued) empties the iteration. *)
-Theorem C33_every_fault_position : forall conc cleaner b r (work : sview -> list cop),
-  In r (read_order conc b) -> iteration2 conc cleaner (only r) b work = [].
+Theorem C33_every_fault_position : forall conc cleaner old b r (work : sview -> list cop),
+  In r (read_order conc b) -> iteration2 conc cleaner old (only r) b work = [].
 Proof. exact single_fault_no_writes. Qed.
 Print Assumptions C33_every_fault_position.
 
-(* A view exists only if no performed read failed, and it lists only blocks whose
-   meta.json was read successfully and that the deletion-mark filter did not hide:
-   a partial view is never handed to the planner. *)
+(* A view exists only if no performed read failed; it lists only blocks whose meta.json
+   was read successfully and that the deletion-mark filter did not hide (a partial view is
+   never handed to the planner); and its "partial" set holds only blocks whose meta.json is
+   really missing or really not JSON — never a block whose meta.json read failed (such a
+   block would be removed as an aborted partial upload). *)
 Theorem C33_view_is_complete : forall conc f b v,
   sync conc f b = Some v ->
   (forall r, performed conc f b r = true -> f r = false) /\
   (forall i, In i (v_metas v) ->
-     exists x, In x b /\ sid x = i /\ smeta x = MOk /\ f (RMeta i) = false /\ del_hidden x = false).
+     exists x, In x b /\ sid x = i /\ smeta x = MOk /\ meta_faulted f x = false /\ del_hidden x = false) /\
+  (forall i, In i (v_partial v) ->
+     exists x, In x b /\ sid x = i /\ (smeta x = MMissing \/ (smeta x = MCorrupt /\ meta_faulted f x = false))).
 Proof. exact view_is_complete. Qed.
 Print Assumptions C33_view_is_complete.
 
@@ -133,8 +142,10 @@ Example C33_structured_nonvacuous :
             mk_bs 5 0 [1] MOk DNone NNone] in
   option_map (fun v => (v_metas v, v_partial v, v_dups v, v_nocompact v)) (sync false no_faults b)
     = Some ([1], [3; 4], [5], [1])%Z
-  /\ iteration2 false true no_faults b (fun _ => []) = [CDelete 2; CMarkDeletion 5]
+  /\ iteration2 false true true no_faults b (fun _ => []) = [CDelete 2; CMarkDeletion 5; CDelete 3; CDelete 4]
   /\ performed false (only (RNoc 1)) b (RNoc 1) = true
-  /\ iteration2 false true (only (RNoc 1)) b (fun _ => [COther 7]) = []
+  /\ iteration2 false true true (only (RNoc 1)) b (fun _ => [COther 7]) = []
+  /\ iteration2 false true true (only (RMetaBody 1)) b (fun _ => [COther 7]) = []
+  /\ option_map v_partial (sync false (only (RMetaBody 3)) b) = None
   /\ performed false no_faults b (RNoc 2) = false.
 Proof. vm_compute. repeat split; reflexivity. Qed.
